@@ -23,7 +23,9 @@ EXPLANATION = (
     "consumed in its given order by another member - chunks, _layer, _meta and the rewrites must enumerate the axes alike; R03.7 the grid "
     "contract that lets a rewrite change an interior node's block structure only when nobody above observes it is transitive (a consumer "
     "holding a per-block literal is protected at any distance, not only as a direct dependent); R03.8 a _simplify_down rewrite, which "
-    "cannot see consumers at all, hands back a replacement only under a chunks-equality guard or at a reviewed site. Per-operation chunk formulas, dtype inference "
+    "cannot see consumers at all, hands back a replacement only under a chunks-equality guard or at a reviewed site; R03.10 every hand-built task "
+    "whose kernel is a def of this package passes an argument list that def can bind (writer/reader agreement; sa/rules/taskarity.py), R03.11 the same for package kernels handed to "
+    "blockwise()/elemwise()/map_blocks(). Per-operation chunk formulas, dtype inference "
     "and the sizes of computed blocks are arithmetic/values and are not decided."
 )
 ASSUMPTIONS = [
@@ -510,7 +512,34 @@ def r03_9(ctx):
     return rr
 
 
-RULES = [r03_1, r03_2, r03_3, r03_4, r03_5, r03_6, r03_7, r03_8, r03_9]
+def r03_10(ctx):
+    from .taskarity import task_arity_rule
+
+    return task_arity_rule(
+        ctx, "R03.10",
+        "writer/reader agreement between every hand-built task and its kernel: a task Task(key, f, a1..an, k=v) (or a legacy "
+        "(f, a1..an) graph value) whose callee resolves to a def in this package (or to an operator.* function) passes a number of "
+        "positional arguments and keyword names the def can bind - otherwise the block the node advertises is never produced (TypeError on every execution)",
+        in_scope=lambda rel: rel.startswith("dask_array/") and "/tests/" not in rel,
+        min_decided=50,
+        consequence="every execution of that task raises TypeError, so the advertised block is never produced",
+    )
+
+
+def r03_11(ctx):
+    from .taskarity import wrapper_arity_rule
+
+    return wrapper_arity_rule(
+        ctx, "R03.11",
+        "a package kernel handed to blockwise()/elemwise()/map_blocks() can bind what those wrappers call it with: one positional block "
+        "per array operand ((array, index) pair for blockwise) plus every keyword the wrapper does not consume itself (block_info/block_id "
+        "are supplied by map_blocks when the kernel names them)",
+        min_decided=15,
+        consequence="every block task of the node raises TypeError",
+    )
+
+
+RULES = [r03_1, r03_2, r03_3, r03_4, r03_5, r03_6, r03_7, r03_8, r03_9, r03_10, r03_11]
 
 LEVEL_TEXT = (
     "Static decision of the layout-barrier clause of C03 ('even when optimization internally chose a different block "
